@@ -9,6 +9,15 @@
       c.if_swap(x, y)   = (x+c*(y-x), y-c*(y-x))     (if_swap)
       x / 2, x / d      = Z.div (the code uses exact field division; exactness of every
                           division that influences a result is part of what is proved)
+
+    Main results (all closed under the global context):
+      divsteps_invariant          invariant of the _divsteps/_gcd loops, all n
+      delta_range, delta_range_secint, delta_arg_out_of_range_when_g_is_0
+      BY_bound_small              g = 0 after _iterations(l) steps, all |f|,|g| <= 2^l, l <= 9
+      gcd_raw_correct, gcd_correct_partial, lcm_correct_partial,
+      gcdext_correct_partial, inverse_raw_congr, inverse_correct_partial
+                                  (given BY_bound l; inverse range given inverse_range_bound l)
+      inverse_range_bound_small   l <= 7
 *)
 Require Import ZArith Znumtheory Lia List Bool.
 Import ListNotations.
@@ -454,7 +463,7 @@ Proof.
   intros l Hl.
   assert (H : l = 0 \/ l = 1 \/ l = 2 \/ l = 3 \/ l = 4 \/ l = 5 \/ l = 6 \/ l = 7 \/ l = 8 \/ l = 9) by lia.
   repeat (destruct H as [-> | H]); try subst l;
-    apply BY_check_sound; vm_compute; reflexivity.
+    apply BY_check_sound; vm_cast_no_check (eq_refl true).
 Qed.
 
 (** ** gcp2 and the 2-power stripping *)
@@ -609,4 +618,482 @@ Proof.
     replace (k * G) with ((- k) * (- G)) by ring.
     rewrite Z.div_mul by lia.
     rewrite Z.mul_opp_r, Z.abs_opp. reflexivity.
+Qed.
+
+(** ** The extended loop (_divsteps) *)
+
+Definition proj3 (s : Z*Z*Z*Z*Z) : Z*Z*Z := let '(delta, f, v, g, r) := s in (delta, f, g).
+
+(* forgetting v and r, _divsteps performs exactly the _gcd loop *)
+Lemma divstep_ext_proj : forall a i s, proj3 (divstep_ext a i s) = divstep_gcd i (proj3 s).
+Proof.
+  intros a i [[[[delta f] v] g] r]. unfold divstep_ext, divstep_ext_d, divstep_gcd, divstep_gcd_d, proj3, if_else.
+  apply triple_eq; [ring | ring | f_equal; ring].
+Qed.
+
+Lemma steps_ext_proj : forall a n s, proj3 (steps_ext a n s) = steps_gcd n (proj3 s).
+Proof.
+  intros a n s. induction n as [|n IH].
+  - reflexivity.
+  - simpl steps_ext. simpl steps_gcd. rewrite divstep_ext_proj, IH. reflexivity.
+Qed.
+
+Lemma halve_comb : forall a b q r g, Z.odd a = true -> g mod 2 = 0 -> r mod 2 = 0 ->
+  g = q * a + r * b -> g / 2 = (q / 2) * a + (r / 2) * b.
+Proof.
+  intros a b q r g Ha Hg Hr E.
+  assert (Hq : q mod 2 = 0).
+  { apply odd_false_mod2. apply odd_false_mod2 in Hg. apply odd_false_mod2 in Hr.
+    assert (Hqa : Z.odd (q * a) = false).
+    { replace (q * a) with (g - r * b) by lia.
+      rewrite Z.odd_sub, Z.odd_mul, Hg, Hr. reflexivity. }
+    rewrite Z.odd_mul, Ha, Bool.andb_true_r in Hqa. exact Hqa. }
+  pose proof (half_even g Hg). pose proof (half_even r Hr). pose proof (half_even q Hq).
+  nia.
+Qed.
+
+Definition bezout_inv (a b : Z) (s : Z*Z*Z*Z*Z) : Prop :=
+  let '(delta, f, v, g, r) := s in
+  (exists u, f = u * a + v * b) /\ (exists q, g = q * a + r * b).
+
+Lemma divstep_ext_d_bezout : forall a b d s,
+  Z.odd a = true -> d = 0 \/ d = 1 ->
+  Z.odd (snd (fst (fst (fst s)))) = true ->
+  bezout_inv a b s -> bezout_inv a b (divstep_ext_d a d s).
+Proof.
+  intros a b d [[[[delta f] v] g] r] Ha Hd Hf [[u Hu] [q Hq]]. simpl in Hf.
+  unfold divstep_ext_d, bezout_inv, if_else.
+  set (g0 := g mod 2). set (c := d * g0).
+  assert (Hg2 : (g0 * (c * (- f - g) + g + (c * (g - f) + f) - (c * (- f - g) + g))
+                 + (c * (- f - g) + g)) mod 2 = 0).
+  { apply odd_false_mod2. subst c g0. rewrite (Zmod_odd g).
+    destruct Hd as [-> | ->]; destruct (Z.odd g) eqn:Og.
+    - replace (1 * (0 * 1 * (- f - g) + g + (0 * 1 * (g - f) + f) - (0 * 1 * (- f - g) + g))
+               + (0 * 1 * (- f - g) + g)) with (f + g) by ring.
+      rewrite Z.odd_add, Hf, Og. reflexivity.
+    - replace (0 * (0 * 0 * (- f - g) + g + (0 * 0 * (g - f) + f) - (0 * 0 * (- f - g) + g))
+               + (0 * 0 * (- f - g) + g)) with g by ring.
+      exact Og.
+    - replace (1 * (1 * 1 * (- f - g) + g + (1 * 1 * (g - f) + f) - (1 * 1 * (- f - g) + g))
+               + (1 * 1 * (- f - g) + g)) with (g - f) by ring.
+      rewrite Z.odd_sub, Hf, Og. reflexivity.
+    - replace (0 * (1 * 0 * (- f - g) + g + (1 * 0 * (g - f) + f) - (1 * 0 * (- f - g) + g))
+               + (1 * 0 * (- f - g) + g)) with g by ring.
+      exact Og. }
+  clearbody c. clearbody g0.
+  split.
+  - exists (c * (q - u) + u). rewrite Hu, Hq. ring.
+  - set (r2 := g0 * (c * (- v - r) + r + (c * (r - v) + v) - (c * (- v - r) + r)) + (c * (- v - r) + r)).
+    assert (Hr3 : ((r2 mod 2) * (r2 + a - r2) + r2) mod 2 = 0).
+    { apply odd_false_mod2.
+      replace ((r2 mod 2) * (r2 + a - r2) + r2) with (r2 + (r2 mod 2) * a) by ring.
+      rewrite (Zmod_odd r2), Z.odd_add, Z.odd_mul, Ha.
+      destruct (Z.odd r2); reflexivity. }
+    set (e := r2 mod 2) in *. clearbody e.
+    exists ((c * (- u - q) + q + g0 * (c * (q - u) + u) - e * b) / 2).
+    apply halve_comb; [exact Ha | exact Hg2 | exact Hr3 | ].
+    subst r2. rewrite Hu, Hq. ring.
+Qed.
+
+(* state after n iterations of _divsteps(a, b) *)
+Definition ext_inv (a b : Z) (n : nat) (s : Z*Z*Z*Z*Z) : Prop :=
+  gcd_inv a b n (proj3 s) /\ bezout_inv a b s.
+
+Lemma ext_inv_steps : forall a b n, Z.odd a = true ->
+  ext_inv a b n (steps_ext a n (1, a, 0, b, 1)).
+Proof.
+  intros a b n Ha. split.
+  - rewrite steps_ext_proj. apply gcd_inv_steps. exact Ha.
+  - induction n as [|n IH].
+    + change (steps_ext a 0 (1, a, 0, b, 1)) with (1, a, 0, b, 1). unfold bezout_inv.
+      split; [exists 1 | exists 0]; ring.
+    + simpl steps_ext.
+      pose proof (gcd_inv_steps a b n Ha) as Hinv.
+      pose proof (steps_ext_proj a n (1, a, 0, b, 1)) as Hpr.
+      change (proj3 (1, a, 0, b, 1)) with (1, a, b) in Hpr. rewrite <- Hpr in Hinv. clear Hpr.
+      destruct (steps_ext a n (1, a, 0, b, 1)) as [[[[delta f] v] g] r].
+      simpl in Hinv. destruct Hinv as (Hf & _).
+      unfold divstep_ext. apply divstep_ext_d_bezout; auto. apply delta_gt0_01.
+Qed.
+
+Lemma divsteps_result : forall l a b, BY_bound l -> Z.odd a = true ->
+  Z.abs a <= 2^l -> Z.abs b <= 2^l ->
+  exists f v u, divsteps_v l a b = (f, v) /\ Z.odd f = true /\
+    Z.abs f = Z.gcd a b /\ f = u * a + v * b.
+Proof.
+  intros l a b HBY Ha Har Hbr.
+  destruct (gcd_loop_result l a b HBY Ha Har Hbr) as (d' & f' & Hs & Hf' & Hab).
+  pose proof (ext_inv_steps a b (niter l) Ha) as [_ Hbz].
+  pose proof (steps_ext_proj a (niter l) (1, a, 0, b, 1)) as Hpr.
+  change (proj3 (1, a, 0, b, 1)) with (1, a, b) in Hpr.
+  unfold divsteps_v.
+  destruct (steps_ext a (niter l) (1, a, 0, b, 1)) as [[[[delta f] v] g] r].
+  simpl in Hpr. rewrite Hs in Hpr. injection Hpr as -> -> ->.
+  destruct Hbz as [[u Hu] _].
+  exists f', v, u. auto.
+Qed.
+
+Lemma tuple5_eq : forall (a a' b b' c c' d d' e e' : Z),
+  a = a' -> b = b' -> c = c' -> d = d' -> e = e' -> (a, b, c, d, e) = (a', b', c', d', e').
+Proof. intros; subst; reflexivity. Qed.
+
+Lemma steps_ext_00 : forall n, exists delta' r', steps_ext 0 n (1, 0, 0, 0, 1) = (delta', 0, 0, 0, r').
+Proof.
+  induction n as [|n IH].
+  - exists 1, 1. reflexivity.
+  - destruct IH as (d & r & E). simpl steps_ext. rewrite E.
+    unfold divstep_ext, divstep_ext_d, if_else. rewrite (Zmod_0_l 2).
+    eexists. eexists. apply tuple5_eq; [reflexivity | ring | ring | | reflexivity].
+    match goal with |- ?x / 2 = 0 => replace x with 0 by ring end. reflexivity.
+Qed.
+
+Lemma divsteps_00 : forall l, divsteps_v l 0 0 = (0, 0).
+Proof.
+  intros l. unfold divsteps_v. destruct (steps_ext_00 (niter l)) as (d & r & ->). reflexivity.
+Qed.
+
+(** ** gcdext *)
+
+Lemma lt0_cases : forall x, (x < 0 /\ lt0 x = 1) \/ (0 <= x /\ lt0 x = 0).
+Proof. intros x. unfold lt0. destruct (x <? 0) eqn:E; [apply Z.ltb_lt in E | apply Z.ltb_ge in E]; lia. Qed.
+
+Lemma gcdext_core : forall l a2 b2 g t, BY_bound l -> Z.odd a2 = true ->
+  Z.abs a2 <= 2^l -> Z.abs b2 <= 2^l -> divsteps_v l a2 b2 = (g, t) ->
+  g mod 2 = 1 /\
+  (1 - 2 * lt0 g) * g = Z.gcd a2 b2 /\
+  (((1 - 2 * lt0 g) * g - (1 - 2 * lt0 g) * t * b2) / a2) * a2 + ((1 - 2 * lt0 g) * t) * b2
+    = (1 - 2 * lt0 g) * g.
+Proof.
+  intros l a2 b2 g t HBY Ha Har Hbr E.
+  destruct (divsteps_result l a2 b2 HBY Ha Har Hbr) as (f & v & u & E' & Hf & Hab & Hu).
+  rewrite E in E'. injection E' as -> ->.
+  assert (Ha0 : a2 <> 0) by (intro; subst a2; discriminate Ha).
+  split; [apply odd_mod2; exact Hf|].
+  remember (Z.gcd a2 b2) as G eqn:EG. clear EG.
+  destruct (lt0_cases f) as [[Hneg ->] | [Hpos ->]].
+  - split; [lia|].
+    replace ((1 - 2 * 1) * f - (1 - 2 * 1) * v * b2) with ((- u) * a2) by (rewrite Hu; ring).
+    rewrite Z.div_mul by exact Ha0. rewrite Hu. ring.
+  - split; [lia|].
+    replace ((1 - 2 * 0) * f - (1 - 2 * 0) * v * b2) with (u * a2) by (rewrite Hu; ring).
+    rewrite Z.div_mul by exact Ha0. rewrite Hu. ring.
+Qed.
+
+Lemma scale_bezout : forall p a1 b1 a b X T Gv,
+  a = p * a1 -> b = p * b1 -> X * a1 + T * b1 = Gv -> X * a + T * b = p * Gv.
+Proof. intros; subst; ring. Qed.
+
+Theorem gcdext_correct_partial : forall l a b, BY_bound l -> 0 <= l ->
+  Z.abs a <= 2^l -> Z.abs b <= 2^l ->
+  let '(g, s, t) := gcdext_v l a b in g = Z.gcd a b /\ s * a + t * b = g.
+Proof.
+  intros l a b HBY Hl Ha Hb.
+  assert (Hz : (a = 0 /\ b = 0) \/ (a <> 0 \/ b <> 0)) by lia.
+  destruct Hz as [[-> ->] | Hnz].
+  - unfold gcdext_v. rewrite !Zdiv_0_l, Zmod_0_l. change (1 - 0) with 1.
+    rewrite if_swap_1, divsteps_00. rewrite Zmod_0_l. simpl lt0. 
+    replace (0 - 2 * lt0 0) with 0 by reflexivity.
+    rewrite !Z.mul_0_l. simpl Z.sub. simpl Z.add. rewrite Zdiv_0_l, if_swap_1.
+    rewrite Z.mul_0_r. split; reflexivity.
+  - destruct (strip_spec l a b Hl Ha Hb Hnz) as (a1 & b1 & Hp & Ea & Eb & Da & Db & Hodd & Ha1 & Hb1).
+    unfold gcdext_v. rewrite Da, Db.
+    set (p := gcp2 l a b) in *.
+    assert (Hgcd : Z.gcd a b = p * Z.gcd a1 b1).
+    { rewrite <- Z.gcd_mul_mono_l_nonneg by lia. rewrite <- Ea, <- Eb. reflexivity. }
+    destruct (Z.odd a1) eqn:Oa.
+    + apply odd_mod2 in Oa as Ma. rewrite Ma. change (1 - 1) with 0. rewrite if_swap_0.
+      destruct (divsteps_v l a1 b1) as [g t] eqn:E.
+      destruct (gcdext_core l a1 b1 g t HBY Oa Ha1 Hb1 E) as (Hg0 & HG & HB).
+      rewrite Hg0. replace (a1 + 1 - 1) with a1 by ring. rewrite if_swap_0.
+      split; [rewrite HG; symmetry; exact Hgcd|].
+      apply (scale_bezout p a1 b1); [exact Ea | exact Eb | exact HB].
+    + apply odd_false_mod2 in Oa as Ma. rewrite Ma. change (1 - 0) with 1. rewrite if_swap_1.
+      simpl in Hodd.
+      destruct (divsteps_v l b1 a1) as [g t] eqn:E.
+      destruct (gcdext_core l b1 a1 g t HBY Hodd Hb1 Ha1 E) as (Hg0 & HG & HB).
+      rewrite Hg0. replace (b1 + 1 - 1) with b1 by ring. rewrite if_swap_1.
+      split; [rewrite HG, Z.gcd_comm; symmetry; exact Hgcd|].
+      rewrite Z.add_comm.
+      apply (scale_bezout p b1 a1); [exact Eb | exact Ea | exact HB].
+Qed.
+
+(** ** inverse *)
+
+Lemma mod_shift : forall x y k b, x = y + k * b -> x mod b = y mod b.
+Proof. intros x y k b ->. apply Z_mod_plus_full. Qed.
+
+Lemma abs1_sq : forall f, Z.abs f = 1 -> f * f = 1.
+Proof. intros f H. assert (f = 1 \/ f = -1) as [-> | ->] by lia; reflexivity. Qed.
+
+(* the value before the final two range corrections is an inverse of a modulo b *)
+Theorem inverse_raw_congr : forall l a b, BY_bound l ->
+  0 <= a <= 2^l -> 0 < b <= 2^l -> Z.gcd a b = 1 ->
+  (inverse_raw l a b * a) mod b = 1 mod b.
+Proof.
+  intros l a b HBY Ha Hb Hg. unfold inverse_raw.
+  destruct (Z.odd a) eqn:Oa.
+  - apply odd_mod2 in Oa as Ma. rewrite Ma. change (1 - 1) with 0. rewrite if_swap_0.
+    destruct (divsteps_result l a b HBY Oa) as (f & v & u & -> & Hf & Hab & Hu); try lia.
+    rewrite Hg in Hab. apply abs1_sq in Hab.
+    assert (Ha0 : a <> 0) by (intro; subst a; discriminate Oa).
+    unfold if_else.
+    replace (1 - f * (v - a) * b) with ((f * u + f * b) * a) by nia.
+    rewrite Z.div_mul by exact Ha0.
+    apply (mod_shift _ _ (- (f * (v - a)))). nia.
+  - apply odd_false_mod2 in Oa as Ma. rewrite Ma. change (1 - 0) with 1. rewrite if_swap_1.
+    assert (Ob : Z.odd b = true).
+    { destruct (Z.odd b) eqn:Ob; [reflexivity | exfalso].
+      apply odd_false_mod2 in Ob.
+      assert (H2 : (2 | Z.gcd a b)).
+      { apply Z.gcd_greatest; apply Z.mod_divide; lia. }
+      rewrite Hg in H2. destruct H2 as [k Hk]. lia. }
+    destruct (divsteps_result l b a HBY Ob) as (f & v & u & -> & Hf & Hab & Hu); try lia.
+    rewrite Z.gcd_comm, Hg in Hab. apply abs1_sq in Hab.
+    unfold if_else.
+    apply (mod_shift _ _ (- (f * u + f * a))). nia.
+Qed.
+
+Lemma inverse_v_shift : forall l a b, 0 < b ->
+  (exists k, inverse_v l a b = inverse_raw l a b + k * b) /\
+  (- 2 * b <= inverse_raw l a b < 2 * b -> 0 <= inverse_v l a b < b).
+Proof.
+  intros l a b Hb. unfold inverse_v. set (u := inverse_raw l a b). clearbody u.
+  unfold if_else, ge01.
+  destruct (lt0_cases u) as [[Hu ->] | [Hu ->]].
+  - destruct (b <=? (1 * (u + 2 * b - u) + u)) eqn:E;
+      [apply Z.leb_le in E | apply Z.leb_gt in E].
+    + split; [exists 1; ring | lia].
+    + split; [exists 2; ring | lia].
+  - destruct (b <=? (0 * (u + 2 * b - u) + u)) eqn:E;
+      [apply Z.leb_le in E | apply Z.leb_gt in E].
+    + split; [exists (-1); ring | lia].
+    + split; [exists 0; ring | lia].
+Qed.
+
+(* The range of the uncorrected inverse, -2b <= u < 2b, depends on the size of the
+   Bezout coefficient v returned by _divsteps (roughly -a <= v < 2a), which is not
+   re-proved here; it is a hypothesis, established by exhaustive computation for small l. *)
+Definition inverse_range_bound (l : Z) : Prop :=
+  forall a b, 0 <= a <= 2^l -> 0 < b <= 2^l -> Z.gcd a b = 1 ->
+    - 2 * b <= inverse_raw l a b < 2 * b.
+
+Theorem inverse_correct_partial : forall l a b, BY_bound l ->
+  0 <= a <= 2^l -> 0 < b <= 2^l -> Z.gcd a b = 1 ->
+  (inverse_v l a b * a) mod b = 1 mod b /\
+  (inverse_range_bound l -> 0 <= inverse_v l a b < b).
+Proof.
+  intros l a b HBY Ha Hb Hg.
+  destruct (inverse_v_shift l a b) as [[k Hk] Hr]; [lia|].
+  split.
+  - rewrite <- (inverse_raw_congr l a b HBY Ha Hb Hg).
+    apply (mod_shift _ _ (k * a)). rewrite Hk. ring.
+  - intros HR. apply Hr. apply HR; assumption.
+Qed.
+
+Definition inverse_range_check (l : Z) : bool :=
+  forallb (fun a =>
+    forallb (fun b => negb (Z.gcd a b =? 1) ||
+                      (let u := inverse_raw l a b in (- 2 * b <=? u) && (u <? 2 * b)))
+            (zrange 1 (Z.to_nat (2^l))))
+    (zrange 0 (Z.to_nat (2^l + 1))).
+
+Lemma inverse_range_check_sound : forall l, inverse_range_check l = true -> inverse_range_bound l.
+Proof.
+  intros l H a b Ha Hb Hg. unfold inverse_range_check in H.
+  rewrite forallb_forall in H.
+  assert (Hia : In a (zrange 0 (Z.to_nat (2^l + 1)))) by (apply zrange_In; lia).
+  specialize (H a Hia). rewrite forallb_forall in H.
+  assert (Hib : In b (zrange 1 (Z.to_nat (2^l)))) by (apply zrange_In; lia).
+  specialize (H b Hib). rewrite Hg in H.
+  change (negb (1 =? 1)) with false in H. rewrite Bool.orb_false_l in H.
+  cbv zeta in H.
+  apply andb_prop in H. destruct H as [H1 H2].
+  apply Z.leb_le in H1. apply Z.ltb_lt in H2. lia.
+Qed.
+
+Theorem inverse_range_bound_small : forall l, 0 <= l <= 7 -> inverse_range_bound l.
+Proof.
+  intros l Hl.
+  assert (H : l = 0 \/ l = 1 \/ l = 2 \/ l = 3 \/ l = 4 \/ l = 5 \/ l = 6 \/ l = 7) by lia.
+  repeat (destruct H as [-> | H]); try subst l;
+    apply inverse_range_check_sound; vm_cast_no_check (eq_refl true).
+Qed.
+
+(** ** Size of delta: the comparison argument fits the shortened bit length *)
+
+Definition size_inv (M : Z) (s : Z*Z*Z) : Prop :=
+  let '(delta, f, g) := s in
+  Z.abs f <= M /\ Z.abs g <= M /\
+  (1 <= delta -> 2^(delta - 1) * Z.abs g <= M) /\
+  (delta <= 0 -> 2^(- delta) <= M).
+
+Lemma pow2_succ : forall x, 0 <= x -> 2^(x + 1) = 2 * 2^x.
+Proof. intros x Hx. rewrite Z.pow_add_r by lia. change (2^1) with 2. ring. Qed.
+
+Lemma size_inv_step : forall M delta f g, 1 <= M ->
+  size_inv M (delta, f, g) ->
+  size_inv M (divstep_ref ((0 <? delta) && Z.odd g) (delta, f, g)).
+Proof.
+  intros M delta f g HM (Hf & Hg & Hpos & Hneg).
+  unfold divstep_ref, size_inv.
+  assert (Hshrink : delta <= -1 -> 2^(- (1 + delta)) <= M).
+  { intros Hd. specialize (Hneg ltac:(lia)).
+    replace (- delta) with (- (1 + delta) + 1) in Hneg by ring.
+    rewrite pow2_succ in Hneg by lia.
+    pose proof (Z.pow_nonneg 2 (- (1 + delta))). lia. }
+  destruct (0 <? delta) eqn:Ed; [apply Z.ltb_lt in Ed | apply Z.ltb_ge in Ed];
+    destruct (Z.odd g) eqn:Og; simpl andb; cbv iota.
+  - (* swap *)
+    specialize (Hpos ltac:(lia)).
+    assert (Hg1 : 1 <= Z.abs g) by (destruct (Z.eq_dec g 0); [subst g; discriminate Og | lia]).
+    pose proof (Z.pow_nonneg 2 (delta - 1)) as Hpn.
+    split; [exact Hg|]. split; [|split].
+    + pose proof (Z.div_mod (g - f) 2). pose proof (Z.mod_pos_bound (g - f) 2). lia.
+    + intros; lia.
+    + intros _. replace (- (1 - delta)) with (delta - 1) by ring. nia.
+  - (* delta > 0, g even *)
+    apply odd_false_mod2 in Og as Mg. rewrite Mg, Z.mul_0_l, Z.add_0_r.
+    pose proof (half_even g Mg) as Hh.
+    specialize (Hpos ltac:(lia)).
+    split; [exact Hf|]. split; [lia|]. split; [|intros; lia].
+    intros _. replace (1 + delta - 1) with ((delta - 1) + 1) by ring.
+    rewrite pow2_succ by lia.
+    replace (2 * 2 ^ (delta - 1) * Z.abs (g / 2)) with (2 ^ (delta - 1) * (2 * Z.abs (g / 2))) by ring.
+    replace (2 * Z.abs (g / 2)) with (Z.abs g) by lia. exact Hpos.
+  - (* delta <= 0, g odd *)
+    apply odd_mod2 in Og as Mg. rewrite Mg, Z.mul_1_l.
+    assert (Hh : Z.abs ((g + f) / 2) <= M).
+    { pose proof (Z.div_mod (g + f) 2). pose proof (Z.mod_pos_bound (g + f) 2). lia. }
+    split; [exact Hf|]. split; [exact Hh|]. split.
+    + intros Hd. assert (delta = 0) by lia. subst delta.
+      replace (1 + 0 - 1) with 0 by ring. rewrite Z.pow_0_r. lia.
+    + intros Hd. apply Hshrink. lia.
+  - (* delta <= 0, g even *)
+    apply odd_false_mod2 in Og as Mg. rewrite Mg, Z.mul_0_l, Z.add_0_r.
+    pose proof (half_even g Mg) as Hh.
+    split; [exact Hf|]. split; [lia|]. split.
+    + intros Hd. assert (delta = 0) by lia. subst delta.
+      replace (1 + 0 - 1) with 0 by ring. rewrite Z.pow_0_r. lia.
+    + intros Hd. apply Hshrink. lia.
+Qed.
+
+Lemma size_inv_steps : forall M f0 g0 n, Z.odd f0 = true ->
+  Z.abs f0 <= M -> Z.abs g0 <= M -> size_inv M (steps_gcd n (1, f0, g0)).
+Proof.
+  intros M f0 g0 n Hf HfM HgM.
+  assert (HM : 1 <= M) by (destruct (Z.eq_dec f0 0); [subst f0; discriminate Hf | lia]).
+  induction n as [|n IH].
+  - simpl steps_gcd. unfold size_inv. split; [exact HfM|]. split; [exact HgM|].
+    split; [intros _; change (2 ^ (1 - 1)) with 1; lia | intros; lia].
+  - simpl steps_gcd. pose proof (gcd_inv_steps f0 g0 n Hf) as Hinv.
+    destruct (steps_gcd n (1, f0, g0)) as [[delta f] g].
+    destruct Hinv as (_ & _ & Hp & _).
+    rewrite divstep_gcd_ref by exact Hp. apply size_inv_step; assumption.
+Qed.
+
+Lemma bit_length_spec : forall m, 0 <= m -> m < 2^(bit_length m).
+Proof.
+  intros m Hm. unfold bit_length. destruct (m <=? 0) eqn:E.
+  - apply Z.leb_le in E. simpl. lia.
+  - apply Z.leb_gt in E. pose proof (Z.log2_spec m E). unfold Z.succ in *. lia.
+Qed.
+
+Lemma pow2_le_inv : forall x l, 0 <= x -> 0 <= l -> 2^x <= 2^l -> x <= l.
+Proof. intros x l Hx Hl H. apply (Z.pow_le_mono_r_iff 2); lia. Qed.
+
+(* Range of delta while g <> 0 (in particular whenever g is odd, the only case in which
+   the value of delta_gt0 matters).  NB the lower bound is -(min(n,l)+1), one more than
+   the comment in the code claims; the comparison argument still fits. *)
+Lemma delta_range : forall l f0 g0 n, 0 <= l -> Z.odd f0 = true ->
+  Z.abs f0 <= 2^l -> Z.abs g0 <= 2^l ->
+  let '(delta, f, g) := steps_gcd n (1, f0, g0) in
+  g <> 0 ->
+  - (Z.min (Z.of_nat n) l + 1) <= delta - 1 <= Z.min (Z.of_nat n) l /\
+  - 2^(bit_length (Z.min (Z.of_nat n) l)) <= delta_arg (Z.of_nat n) delta
+      < 2^(bit_length (Z.min (Z.of_nat n) l)).
+Proof.
+  intros l f0 g0 n Hl Hf Hfr Hgr.
+  pose proof (size_inv_steps (2^l) f0 g0 n Hf Hfr Hgr) as Hs.
+  pose proof (gcd_inv_steps f0 g0 n Hf) as Hi.
+  destruct (steps_gcd n (1, f0, g0)) as [[delta f] g].
+  destruct Hs as (_ & _ & Hpos & Hneg). destruct Hi as (_ & _ & Hp & Hr).
+  intros Hg0.
+  assert (Hup : 1 <= delta -> delta - 1 <= l).
+  { intros Hd. specialize (Hpos Hd). apply pow2_le_inv; [lia | lia | ].
+    pose proof (Z.pow_nonneg 2 (delta - 1) ltac:(lia)). nia. }
+  assert (Hlo : delta <= 0 -> - delta <= l).
+  { intros Hd. apply pow2_le_inv; [lia | lia | apply Hneg; exact Hd]. }
+  assert (Hrange : - (Z.min (Z.of_nat n) l + 1) <= delta - 1 <= Z.min (Z.of_nat n) l) by lia.
+  split; [exact Hrange|].
+  pose proof (bit_length_spec (Z.min (Z.of_nat n) l) ltac:(lia)) as Hbl.
+  destruct (delta_gt0_spec (Z.of_nat n) delta Hp) as [Hpar _].
+  unfold delta_arg. pose proof (half_even _ Hpar) as Hh.
+  pose proof (mod2_cases (Z.of_nat n)). lia.
+Qed.
+
+(* ... and it does NOT hold once g = 0 (delta then just increments): for l = 7, a = 1,
+   b = 0, at iteration i = 16 < _iterations(7) = 24 the argument of sgn is 8 = 2^3 with
+   l = min(16,7).bit_length() = 3.  Harmless for the result, because delta_gt0 is
+   multiplied by g%2 = 0 (divstep_gcd_d_even_indep). *)
+Example delta_arg_out_of_range_when_g_is_0 :
+  let '(delta, f, g) := steps_gcd 16 (1, 1, 0) in
+  g = 0 /\ 16 < iterations 7 /\
+  delta_arg 16 delta = 2^(bit_length (Z.min 16 7)).
+Proof. vm_compute. split; [reflexivity|]. split; reflexivity. Qed.
+
+(* For inputs in the secint(l) range (|a|,|b| <= 2^(l-1)) the comment in the code,
+   |delta-1| <= min(i,l) for g != 0, holds literally. *)
+Corollary delta_range_secint : forall l f0 g0 n, 1 <= l -> Z.odd f0 = true ->
+  Z.abs f0 <= 2^(l-1) -> Z.abs g0 <= 2^(l-1) ->
+  let '(delta, f, g) := steps_gcd n (1, f0, g0) in
+  g <> 0 -> Z.abs (delta - 1) <= Z.min (Z.of_nat n) l.
+Proof.
+  intros l f0 g0 n Hl Hf Hfr Hgr.
+  pose proof (delta_range (l-1) f0 g0 n ltac:(lia) Hf Hfr Hgr) as Hd.
+  pose proof (gcd_inv_steps f0 g0 n Hf) as Hi.
+  destruct (steps_gcd n (1, f0, g0)) as [[delta f] g].
+  destruct Hi as (_ & _ & _ & Hr).
+  intros Hg. destruct (Hd Hg) as [Hrange _]. lia.
+Qed.
+
+(* gcd(a, b, l) applies abs(., l=l), a comparison on l bits, to the result of _gcd; for
+   a = b = 2^l (bit length l+1, outside the documented precondition) that result is 2^l,
+   outside the range -2^l <= x < 2^l of the comparison (the real protocol then returns
+   3*2^l); gcd_correct_partial therefore assumes |a|,|b| < 2^l. *)
+Example gcd_raw_at_2_pow_l : gcd_raw 5 32 32 = 2^5.
+Proof. vm_compute. reflexivity. Qed.
+
+(** ** Summary *)
+
+Theorem divsteps_invariant : forall a b n, Z.odd a = true ->
+  let '(delta, f, v, g, r) := steps_ext a n (1, a, 0, b, 1) in
+  (* the (delta, f, g) part is the state of the _gcd loop *)
+  steps_gcd n (1, a, b) = (delta, f, g) /\
+  Z.odd f = true /\
+  Z.gcd f g = Z.gcd a b /\
+  (exists u, f = u * a + v * b) /\
+  (exists q, g = q * a + r * b) /\
+  (* parity of delta: the field division by 2 in the argument of sgn is exact *)
+  (delta - 1 - Z.of_nat n) mod 2 = 0 /\
+  (delta - 1 - Z.of_nat n mod 2) mod 2 = 0 /\
+  delta_gt0 (Z.of_nat n) delta = (if 0 <? delta then 1 else 0) /\
+  (* range of delta: always |delta-1| <= n; bounded via l only while g <> 0 *)
+  Z.abs (delta - 1) <= Z.of_nat n /\
+  (forall l, 0 <= l -> Z.abs a <= 2^l -> Z.abs b <= 2^l -> g <> 0 ->
+     - (Z.min (Z.of_nat n) l + 1) <= delta - 1 <= Z.min (Z.of_nat n) l /\
+     - 2^(bit_length (Z.min (Z.of_nat n) l)) <= delta_arg (Z.of_nat n) delta
+        < 2^(bit_length (Z.min (Z.of_nat n) l))).
+Proof.
+  intros a b n Ha.
+  pose proof (ext_inv_steps a b n Ha) as [Hg Hb].
+  pose proof (steps_ext_proj a n (1, a, 0, b, 1)) as Hpr.
+  change (proj3 (1, a, 0, b, 1)) with (1, a, b) in Hpr.
+  pose proof (fun l H0 H1 H2 => delta_range l a b n H0 Ha H1 H2) as Hdr.
+  destruct (steps_ext a n (1, a, 0, b, 1)) as [[[[delta f] v] g] r].
+  unfold proj3 in Hpr, Hg. rewrite <- Hpr in Hdr.
+  destruct Hg as (Hf & Hgcd & Hp & Hr). destruct Hb as [Hu Hq].
+  destruct (delta_gt0_spec (Z.of_nat n) delta Hp) as [Hpar Hgt].
+  split; [symmetry; exact Hpr|].
+  repeat (split; [assumption|]).
+  exact Hdr.
 Qed.
